@@ -24,7 +24,7 @@ PROPS = {
         ],
         "runs": {"quick": [dict(CHK), {"flavour": "rel", "scale": 0.25}], "thorough": [dict(CHK), {"flavour": "rel", "scale": 0.5}]},
         "mandatory": {
-            "agree.ok": 1000, "agree.err": 1000, "selfcheck.recipe_agree": 1000,
+            "corpus_cases": 100000, "agree.ok": 1000, "agree.err": 1000, "selfcheck.recipe_agree": 1000,
             "entry.SlicedPacket::from_ethernet": 100, "entry.SlicedPacket::from_linux_sll": 100,
             "entry.SlicedPacket::from_ether_type": 100, "entry.SlicedPacket::from_ip": 100,
             "error_kind.Len:*": 100, "error_kind.Content:*": 100,
@@ -43,7 +43,7 @@ PROPS = {
         ],
         "runs": {"quick": [dict(CHK), {"flavour": "rel", "scale": 0.25}], "thorough": [dict(CHK), {"flavour": "rel", "scale": 0.5}]},
         "mandatory": {
-            "errors_judged": 10000, "truthful": 10000, "truthful_behind_offset0": 1000, "stop_layer_ok": 1000,
+            "corpus_cases": 100000, "errors_judged": 10000, "truthful": 10000, "truthful_behind_offset0": 1000, "stop_layer_ok": 1000,
             "cell.content": 100, "cell.*.Ipv4Total": 100, "cell.*.Ipv6Payload": 100, "cell.*.MacsecShort": 20,
             "cell.UdpHeader.UdpLen": 10,
         },
@@ -61,7 +61,7 @@ PROPS = {
         ],
         "runs": {"quick": [dict(CHK), {"flavour": "rel", "scale": 0.25}], "thorough": [dict(CHK), {"flavour": "rel", "scale": 0.5}]},
         "mandatory": {
-            "strict_ok_lax_same": 10000, "lax.layers_agree": 10000, "lax.no_stop": 1000, "lax.err_first_header": 100,
+            "corpus_cases": 100000, "strict_ok_lax_same": 10000, "lax.layers_agree": 10000, "lax.no_stop": 1000, "lax.err_first_header": 100,
             "lax.stop.Vlan": 10, "lax.stop.Macsec": 10, "lax.stop.Arp": 10, "lax.stop.Ext*": 10, "lax.stop.Udp": 10,
             "lax.stop.Tcp": 10, "lax.stop.Icmp4": 5, "lax.stop.Icmp6": 5, "lax.stop.Ipv4": 10,
             "lax.incomplete_true.Macsec": 10, "lax.incomplete_true.Ipv4": 100, "lax.incomplete_true.Ipv6": 100,
@@ -82,7 +82,7 @@ PROPS = {
         ],
         "runs": {"quick": [dict(CHK), {"flavour": "rel", "scale": 0.25}], "thorough": [dict(CHK), {"flavour": "rel", "scale": 0.5}]},
         "mandatory": {
-            "same": 10000, "same.udp": 500, "same.tcp": 500, "same.icmpv4": 200, "same.icmpv6": 200, "same.ip": 500,
+            "corpus_cases": 100000, "same": 10000, "same.udp": 500, "same.tcp": 500, "same.icmpv4": 200, "same.icmpv6": 200, "same.ip": 500,
             "same.ether": 500, "same.macsec_mod": 100, "same.empty": 100, "both_reject": 1000, "same_stop": 1000,
             "permitted_difference_ok": 500,
         },
@@ -102,7 +102,7 @@ PROPS = {
         "runs": {"quick": [dict(CHK), {"flavour": "rel", "scale": 0.25}], "thorough": [dict(CHK), {"flavour": "rel", "scale": 0.5}]},
         "abnormal_owner": "C06",
         "mandatory": {
-            "eth_vs_ether_type.same": 10000, "eth_vs_ether_type.same_error": 1000, "ether_type_vs_ip.same": 10000,
+            "corpus_cases": 100000, "eth_vs_ether_type.same": 10000, "eth_vs_ether_type.same_error": 1000, "ether_type_vs_ip.same": 10000,
             "ether_type_vs_ip.same_error": 1000, "ip_siblings.same": 10000, "ip_siblings.same_error": 1000,
             "read_vs_slice.same_value": 10000, "read_vs_slice.rejection.Len": 1000, "read_vs_slice.rejection.Content": 500,
             "entry.*::read": 24000,
@@ -130,7 +130,7 @@ PROPS = {
         },
         "abnormal_owner": "C01",
         "mandatory": {
-            "placements_compared": 100000, "sub_slices_checked": 1000000, "accessor_calls": 1000000,
+            "corpus_cases": 20000, "placements_compared": 100000, "sub_slices_checked": 1000000, "accessor_calls": 1000000,
             "entry.SlicedPacket::*": 1000, "entry.LaxSlicedPacket::*": 1000, "entry.PacketHeaders::*": 1000,
             "entry.LaxPacketHeaders::*": 1000, "entry.*::read": 1000, "entry.*::from_slice": 1000,
         },
